@@ -1,6 +1,6 @@
 (* C18 — Routing is deterministic: patterns invert, ambiguity is detected.
    Property theorems only (Proofs/RouteProofs.v).  Model: Model/Route.v (bytes = UTF-8). *)
-From SwimV Require Import Model.Route Proofs.RouteProofs.
+From SwimV Require Import Model.Route Proofs.RouteProofs Proofs.RouteUriProofs.
 Open Scope N_scope.
 
 (* percent-decoding inverts the percent-encoding apply uses, for every byte string *)
@@ -52,3 +52,45 @@ Theorem C18_route_table_deterministic : forall (routes : list pattern) sc path,
   forall p q r1 r2, In p routes -> In q routes -> p <> q ->
   unapply_uri p sc path = Some r1 -> unapply_uri q sc path = Some r2 -> False.
 Proof. exact route_table_deterministic. Qed.
+
+(* ---- the RouteUri parse of an applied route (Proofs/RouteUriProofs.v): the step left open above ---- *)
+
+(* for a pattern inside the URI grammar (literal segments of path characters, a well-formed scheme or none that
+   the path could be mistaken for), RouteUri::from_str of the applied route is exactly (scheme, path) *)
+Theorem C18_applied_route_parses : forall p m parts,
+  values_are_bytes m -> p_segs p <> [] -> Forall lit_ok (p_segs p) -> Forall (fun s => s_text s <> []) (p_segs p) ->
+  render_all m (p_segs p) = Some parts ->
+  let body := join true (p_abs p) parts in
+  match p_scheme p with
+  | Some sc => scheme_ok sc = true
+  | None => uri_scheme body = None
+  end ->
+  parse_uri ((match p_scheme p with Some sc => sc ++ [COLON] | None => [] end) ++ body) = Some (p_scheme p, body).
+Proof. exact applied_route_parses. Qed.
+
+(* hence the whole round trip: filling the pattern and matching the resulting route string against the same
+   pattern returns exactly the parameter values *)
+Theorem C18_apply_unapply : forall p m parts route,
+  values_are_bytes m -> p_segs p <> [] -> Forall (fun s => ~ In SLASH (s_text s)) (p_segs p) ->
+  Forall lit_ok (p_segs p) -> Forall (fun s => s_text s <> []) (p_segs p) ->
+  render_all m (p_segs p) = Some parts ->
+  match p_scheme p with
+  | Some sc => scheme_ok sc = true
+  | None => uri_scheme (join true (p_abs p) parts) = None
+  end ->
+  apply p m = inl route -> unapply_str p route = Some (bind_params m (p_segs p) []).
+Proof. exact apply_unapply_str. Qed.
+
+(* the last premise is automatic for absolute patterns without a scheme *)
+Theorem C18_absolute_has_no_scheme : forall parts, uri_scheme (join true true parts) = None.
+Proof. exact absolute_has_no_scheme. Qed.
+
+(* the premises are met: the pattern swim:/unit/:id filled with id = "a b" *)
+Theorem C18_apply_unapply_witness :
+  let p := {| p_text := []; p_scheme := Some [115; 119; 105; 109]; p_abs := true;
+              p_segs := [{| s_param := false; s_start := 6; s_text := [117; 110; 105; 116] |};
+                         {| s_param := true; s_start := 12; s_text := [105; 100] |}] |} in
+  let m := [([105; 100], [97; 32; 98])] in
+  apply p m = inl [115; 119; 105; 109; 58; 47; 117; 110; 105; 116; 47; 97; 37; 50; 48; 98]
+  /\ unapply_str p [115; 119; 105; 109; 58; 47; 117; 110; 105; 116; 47; 97; 37; 50; 48; 98] = Some m.
+Proof. vm_compute. auto. Qed.
